@@ -387,12 +387,57 @@ def opDispatch (args : List String) : Option String := do
   | _ => none
 end DasOps
 
+/-! ### C12 TFM pipelines (exact rationals) -/
+section TfmOps
+open Arim.Das Arim.Num Arim.Tfm Arim.Frame
+
+def pairs? (s : String) : Option (List Pair) :=
+  (splitNE s ",").mapM (fun t => match t.splitOn ":" with
+    | [a, b] => do let a ← nat? a; let b ← nat? b; pure (a, b)
+    | _ => none)
+
+/-- data indexed by element pair, from rows aligned with the pair list -/
+def pairData (pairs : List Pair) (rows : List (List (Rat × Rat))) : Nat → Nat → Nat → CRat :=
+  let tbl := (pairs.zip rows).toArray
+  fun tx rx i => match tbl.find? (fun e => e.1.1 == tx && e.1.2 == rx) with
+    | some e => e.2.toArray.getD i (0, 0)
+    | none => (0, 0)
+
+/-- `ctfm <it> <fre> <fim> <t0> <dt> <pairs> <Gre> <Gim> <lookup[point][element]>` -/
+def opCtfm (args : List String) : Option String := do
+  match args with
+  | [it, fre, fim, t0, dt, ps, gre, gim, lk] =>
+    let it ← interp? it; let fre ← rat? fre; let fim ← rat? fim; let t0 ← rat? t0; let dt ← rat? dt
+    let ps ← pairs? ps; let gre ← ratMat? gre; let gim ← ratMat? gim; let lk ← ratMat? lk
+    let n := (gre.head?.map List.length).getD 0
+    let G := pairData ps (zip2 gre gim)
+    let res := (List.range lk.length).map (fun pt => contactTfm ratOps cratData ps G n (mat2 lk 0) t0 dt it (fre, fim) pt)
+    pure (join (res.map (fun v => showRat v.1 ++ ":" ++ showRat v.2)))
+  | _ => none
+
+/-- `vtfm <it> <fre> <fim> <t0> <dt> <pairs> <Gre> <Gim> <timesTx[element][point]> <timesRx[element][point]>` -/
+def opVtfm (args : List String) : Option String := do
+  match args with
+  | [it, fre, fim, t0, dt, ps, gre, gim, ttx, trx] =>
+    let it ← interp? it; let fre ← rat? fre; let fim ← rat? fim; let t0 ← rat? t0; let dt ← rat? dt
+    let ps ← pairs? ps; let gre ← ratMat? gre; let gim ← ratMat? gim
+    let ttx ← ratMat? ttx; let trx ← ratMat? trx
+    let n := (gre.head?.map List.length).getD 0
+    let G := pairData ps (zip2 gre gim)
+    let npts := (ttx.head?.map List.length).getD 0
+    let res := (List.range npts).map (fun pt => tfmForView ratOps cratData ps G n (mat2 ttx 0) (mat2 trx 0) t0 dt it (fre, fim) pt)
+    pure (join (res.map (fun v => showRat v.1 ++ ":" ++ showRat v.2)))
+  | _ => none
+end TfmOps
+
 def route (op : String) (args : List String) : String :=
   let r : Option String :=
     match op with
     | "fermat" => opFermat args
     | "minplus" => opMinPlus args
     | "chunks" => opChunks args
+    | "ctfm" => opCtfm args
+    | "vtfm" => opVtfm args
     | "das" => opDas args
     | "dasdispatch" => opDispatch args
     | "rgcache" => opRgCache args
